@@ -1,6 +1,6 @@
 (* C07  Expression trees follow the C/C++ operator grammar: property statements only. *)
 From Coq Require Import List NArith Bool.
-From CV Require Import Ast.Defs Ast.Main1 Ast.Main2.
+From CV Require Import Ast.Defs Ast.Main1 Ast.Main2 Ast.NoDecl.
 Import ListNotations.
 Local Open Scope N_scope.
 
@@ -28,16 +28,15 @@ Example C07_partial_premises :
 Proof. vm_compute. repeat split; reflexivity. Qed.
 
 (* PARTIAL (stage 2a).  Fragment [frag2] = stage 1 + the 11 assignment operators (right-associative, parsed
-   through compileAssignTernary's recursion and its assign counter) + the comma operator.
-   Premise [decl_like (render e) = false]: the token pattern  X ) ( name ) =  that compileTerm takes for a
-   function pointer declaration (when the operand stack holds only that name and depth is 0) does not occur.
+   through compileAssignTernary's recursion and its assign counter) + the comma operator.  No side condition:
+   the token pattern  X ) ( name ) =  that compileTerm takes for a function pointer declaration needs a '('
+   directly after a ')' , which these renderings never contain (Ast/NoDecl.v).
    Missing for the full language: ?: (with prepareTernaryOpForAST), prefix and postfix operators, calls,
    subscripts, member access. *)
 Theorem C07_parse_render_stage2_partial :
   forall (cpp : bool) (e : expr),
-    frag2 e = true -> decl_like (render e) = false ->
-    parse cpp (render e) = Some (tree_of e).
-Proof. exact parse_render_stage2. Qed.
+    frag2 e = true -> parse cpp (render e) = Some (tree_of e).
+Proof. exact parse_render_stage2_full. Qed.
 Print Assumptions C07_parse_render_stage2_partial.
 
 (* the premises are inhabited:  a = b += c * ( d , 1 ) , a |= 2 *)
@@ -45,7 +44,7 @@ Example C07_stage2_premises :
   let e := canon (EComma 0 (EAsg 0 AEq (EId 0 0) (EAsg 0 AAdd (EId 0 1)
                                 (EBin 0 BMul (EId 0 2) (EComma 0 (EId 0 3) (ENum 0 1)))))
                     (EAsg 0 AOr (EId 0 0) (ENum 0 2))) in
-  frag2 e = true /\ decl_like (render e) = false /\ wf e = true /\
+  frag2 e = true /\ wf e = true /\
   parse false (render e) = Some (tree_of e).
 Proof. vm_compute. repeat split; reflexivity. Qed.
 
